@@ -309,17 +309,26 @@ class BodyIndex:
             v = self._fold(rv, depth)
             if v is not None:
                 return ("const", v)
+        if rv["k"] == "un" and rv["op"] == "Neg":
+            inner = self.resolve(rv["a"], depth + 1)
+            if inner[0] == "const" and abs(inner[1]) < (1 << 31):
+                return ("const", -inner[1])
         return ("rv", rv, d[1])
 
     def _fold(self, rv, depth):
         """Value of Add/Sub/Mul on two operands that resolve to non-negative constants (no wrap below 2^64)."""
-        op_ = rv["op"].replace("WithOverflow", "")
-        if op_ not in ("Add", "Sub", "Mul"):
+        op_ = rv["op"].replace("WithOverflow", "").replace("Unchecked", "")
+        if op_ not in ("Add", "Sub", "Mul", "Shl", "Shr"):
             return None
         a, b = self.resolve(rv["a"], depth + 1), self.resolve(rv["b"], depth + 1)
         if a[0] != "const" or b[0] != "const" or a[1] < 0 or b[1] < 0:
             return None
-        v = a[1] + b[1] if op_ == "Add" else a[1] * b[1] if op_ == "Mul" else a[1] - b[1]
+        if op_ in ("Shl", "Shr"):
+            if b[1] >= 31:
+                return None
+            v = a[1] << b[1] if op_ == "Shl" else a[1] >> b[1]
+        else:
+            v = a[1] + b[1] if op_ == "Add" else a[1] * b[1] if op_ == "Mul" else a[1] - b[1]
         return v if 0 <= v < (1 << 31) else None
 
     def callee(self, t):
@@ -1094,6 +1103,11 @@ def discharge(ix, s):
             if ub is not None and bits and ub <= bits:
                 return "D2 shift amount bounded below the operand width"
             return None
+        if s.detail == "OverflowNeg":
+            r0 = ix.resolve(ops[0]) if ops else ("unknown",)
+            if r0[0] == "const" and abs(r0[1]) < (1 << 31):
+                return "D2 negation of a constant that is not the minimum value"
+            return None
         if s.detail in ("DivisionByZero", "RemainderByZero"):
             # divisor is the operand compared with zero in the assert condition
             t = body.term(s.bb)
@@ -1127,6 +1141,9 @@ def discharge(ix, s):
             return None
         if s.detail == "Sub":
             a, b = ops
+            ra_, rb_ = ix.resolve(a), ix.resolve(b)
+            if ra_[0] == "const" and rb_[0] == "const" and ra_[1] >= rb_[1] >= 0:
+                return "D1 subtraction of constants that does not underflow"
             # a - min(a, _)
             rb = ix.resolve(b)
             if rb[0] == "call" and (ix.callee(rb[1]).endswith("cmp::min") or ix.callee(rb[1]).split("::")[-1] == "min"):
